@@ -229,7 +229,8 @@ def main(argv=None):
                                    'kwargs': kw})
                 entry['verdict'] = 'counterexample(reproduced)'
             else:
-                entry['verdict'] = 'inconclusive(divergence)'
+                if entry['verdict'] != 'counterexample(reproduced)':
+                    entry['verdict'] = 'inconclusive(divergence)'
                 entry.setdefault('divergences', []).append(
                     {'kind': 'counterexample-not-reproduced', 'kwargs': kw,
                      'symbolic_message': fail.get('message'),
